@@ -36,6 +36,7 @@ PROBES = [f"kv-split-top{a}-old{b}-new{c}" for a in (0, 1) for b in (0, 1) for c
     "earlier-root-read-back",
     "reopened-at-earlier-root",
     "value-is-a-node-hash",
+    "value-is-a-node-body",
 ]
 FAULTS = ["write-fail-applied", "write-fail-not-applied", "withhold-node", "crash-reopen"]
 COMPONENTS = {
@@ -136,6 +137,11 @@ class World(BWorld):
             if keys:
                 v = keys[cmd["vh"] % len(keys)]
                 self.st.probe("value-is-a-node-hash")
+        elif "vb" in cmd:
+            bodies = sorted(set(self.db.raw().values()))
+            if bodies:
+                v = bodies[cmd["vb"] % len(bodies)]
+                self.st.probe("value-is-a-node-body")
         t = self.trie
         root_before = t.root_hash
         conflict = conflicts(self.model, k)
